@@ -147,6 +147,12 @@ func c08(r *Report) propMeta {
 	// the active flag / active-id index pair (activation, deactivation, withdraw-below-minimum) is decided by C17's rules
 	r.Include("C17", "C17.R3", "C17.R4", "C17.R5")
 
+	r.Rule("C08.lint", "E8 module lint: no nondeterminism / process-local state in x/tunnel")
+	r.ModuleLint("module-lint", "tunnel", 20)
+
+	r.Rule("C08.iter", "E14 store-iterator loops run to exhaustion")
+	r.IteratorLoopCensus("iter", []string{"x/tunnel/"}, nil, 3)
+
 	return propMeta{
 		Decided: []string{
 			"R1 CreatePacket/DeductBasePacketFee/SetLatestPrices on the end-block path are under ProduceActiveTunnelPacket's CacheContext whose writeFn is gated by ProducePacket==nil; both routes sit under SendPacket's defer-recover that assigns the NAMED error result; latest prices are written only after CreatePacket and SendPacket succeeded",
@@ -158,6 +164,8 @@ func c08(r *Report) propMeta {
 			"R7 the literal constructors of x/tunnel/types (frozen list) store each parameter or a constant unchanged in the record they build: what a handler validated is what is stored",
 			"R8 in app.orderEndBlockers feeds and bandtss come before tunnel",
 			"R9 (disjunctive) either UpdatePrices merges by signal id on every path, or every place that empties the tracked prices also zeroes LastInterval; giving up one of the two alone keeps the property, giving up both does not (seed C08-7)",
+			"lint: the determinism lint (incl. writes to memory held by long-lived objects) over everything reachable from the handlers and blockers of x/tunnel",
+			"iter: every KV-store iterator loop of the module's keeper runs until the iterator is exhausted (header is the bare Valid() test, no other way out but panic / error return), except reviewed early stops",
 		},
 		Undecided: []string{"'exactly when due' over price trajectories", "deviation arithmetic values", "route-internal behaviour (bandtss/ibc) beyond the recover barrier"},
 		Assume:    []string{"CacheContext isolates writes until writeFn", "bank SendCoins* either moves the full amount or errors", "msg handlers are atomic"},
